@@ -8,7 +8,7 @@ MANIFEST_ENTRY = dict(
     technique="TLC model checking of spec/MCWallet.tla + TLC-generated behaviours replayed on the real code + TLC trace validation (spec/TraceWallet.tla)",
     note=WALLET_NOTE)
 
-PARAMS = dict(quick_cfgs=['MC_C05_quick.cfg', 'MC_C05_acct.cfg', 'MC_C05_chg.cfg'], thorough_cfgs=['MC_C05.cfg', 'MC_C05_inv.cfg', 'MC_C05_acct.cfg', 'MC_C03_acct.cfg', 'MC_C05_chg.cfg', 'MC_C03_three.cfg@sim=500x30'], quick_n=140, thorough_n=500, focus=['cancel', 'nchange'], crash_cases_quick=8, crash_cases_thorough=60, crash_ops=['cancel'],
+PARAMS = dict(quick_cfgs=['MC_C05_quick.cfg', 'MC_C05_acct.cfg', 'MC_C05_chg.cfg'], thorough_cfgs=['MC_C05.cfg', 'MC_C05_inv.cfg', 'MC_C05_acct.cfg', 'MC_C03_acct.cfg', 'MC_C05_chg.cfg', 'MC_C03_three.cfg@sim=500x30'], quick_n=180, thorough_n=600, focus=['cancel', 'nchange'], crash_cases_quick=8, crash_cases_thorough=60, crash_ops=['cancel'],
               setup=STD_SETUP, assumptions=WALLET_ASSUME, extra_behaviours=[])
 
 
